@@ -110,7 +110,9 @@ func (c *Ctx) Expect(rule string, min int) {
 	}
 }
 
-func (c *Ctx) Note(format string, a ...interface{}) { c.Notes = append(c.Notes, fmt.Sprintf(format, a...)) }
+func (c *Ctx) Note(format string, a ...interface{}) {
+	c.Notes = append(c.Notes, fmt.Sprintf(format, a...))
+}
 
 // KnownFinding is one line of /verif/known_findings.jsonl.
 type KnownFinding struct {
